@@ -155,6 +155,8 @@ def loop_setup(ex, st, body_mods):
     c = ex.contract
     invs = c.invariants.get(ord_) if c is not None else None
     if invs is None:
+        if c is not None and c.options.get('frames'):
+            return ord_, []      # frame-only contract: the trivial invariant (every state), see calls.py
         raise Unsupported('loop %d of %s has no invariant' % (ord_, ex.fname))
     return ord_, invs
 
@@ -210,6 +212,10 @@ def run_for(ex, st):
     dec = ex.contract.decreases.get(ord_) if ex.contract else None
     if ex.branch(i < n):
         ex.bind_target(st.target, it.elem(i), st)
+        from . import mutate
+        mutate.record_roots(ex, st.target, st.iter)
+        for nm_ in [x.id for x in ast.walk(st.target) if isinstance(x, ast.Name)]:
+            ex.fresh_outer[nm_] = False
         ex.in_loop_body += 1
         try:
             try:
